@@ -63,7 +63,7 @@ func argSets(mt reflect.Type) [][]reflect.Value {
 		return [][]reflect.Value{{reflect.ValueOf(12345 * time.Second)}}
 	case in == tOptCode4:
 		var s [][]reflect.Value
-		for _, c := range []uint8{1, 53, 55, 82, 119, 200} {
+		for _, c := range []uint8{0, 1, 53, 55, 82, 119, 200, 255} {
 			s = append(s, []reflect.Value{reflect.ValueOf(dhcpv4.GenericOptionCode(c)).Convert(reflect.TypeOf(dhcpv4.GenericOptionCode(0)))})
 		}
 		return s
